@@ -16,5 +16,7 @@ print("  first replay:", d.get("case"), "| real:", str(d.get("observed_on_real_c
 PY
 fi
 git -C /repo worktree remove --force "$wt"
+# the generated Lean files are shared: put the /repo versions back (under the same lock `check` uses)
+( flock 9; python3 tools/gen_tables.py >/dev/null 2>&1; python3 tools/rs2lean.py >/dev/null 2>&1 ) 9>/verif/work/lake.lock
 rm -rf /verif/work/target-$(python3 -c "import hashlib,sys;print(hashlib.sha1(sys.argv[1].encode()).hexdigest()[:10])" "$wt")
 exit $rc
